@@ -6,18 +6,21 @@ EXTENDS Naturals, Sequences, FiniteSets
 None == "none"
 
 AllKinds == {"fail", "err", "skip", "xfail", "uxs", "ki", "exit",
-             "custom", "custom2", "custom3", "subfail", "subskip", "subki", "skipobj", "abort"}
+             "custom", "custom2", "custom3", "custom4", "subfail", "subskip", "subki", "skipobj", "abort",
+             "xfaild", "uxsd"}
 BaseKinds == {"ki", "exit", "subki", "abort"}   \* do not derive from Exception (abort: a user BaseException subclass)
 
 \* The documented handler table (testcase.py:248-254), user-inserted handler first:
 \*   custom  = Exception subclass whose handler was inserted at the FRONT (reports a failure)
 \*   custom2 = Exception subclass whose handler was appended BEHIND (Exception, error): never fires
 \*   custom3 = class Sub3(Base3) with user handlers inserted as [(Base3, failure), (Sub3, skip)]: list order decides
-Map(k) == CASE k \in {"fail", "subfail", "custom", "custom3"} -> "failure"
+\*   custom4 = Exception subclass whose (failure) handler is inserted into exception_handlers by setUp, i.e. during the run
+\*   xfaild / uxsd = what a method decorated with unittest.expectedFailure turns an Exception / a normal return into
+Map(k) == CASE k \in {"fail", "subfail", "custom", "custom3", "custom4"} -> "failure"
             [] k \in {"err", "custom2"} -> "error"
             [] k \in {"skip", "subskip", "skipobj"} -> "skip"     \* skipobj: skipTest(reason) with a non-str reason
-            [] k = "xfail" -> "xfail"
-            [] k = "uxs" -> "uxsuccess"
+            [] k \in {"xfail", "xfaild"} -> "xfail"
+            [] k \in {"uxs", "uxsd"} -> "uxsuccess"
             [] k \in BaseKinds -> "error"
 
 Unsuccessful == {"failure", "error", "uxsuccess"}
